@@ -153,6 +153,11 @@ func (ei *resourceInformer) createSharedInformer() error {
 
 // Snapshot returns all cached objects for this informer
 func (ei *resourceInformer) getCachedObjects() []kemtypes.ObjectAndFilterResult {
+	// Copy the cache and reset eventBuf in one step: an event buffered between the copy and
+	// the reset is in neither of them and would be lost.
+	ei.eventBufLock.Lock()
+	defer ei.eventBufLock.Unlock()
+
 	ei.cacheLock.RLock()
 	res := make([]kemtypes.ObjectAndFilterResult, 0)
 	for _, obj := range ei.cachedObjects {
@@ -161,11 +166,9 @@ func (ei *resourceInformer) getCachedObjects() []kemtypes.ObjectAndFilterResult 
 	ei.cacheLock.RUnlock()
 
 	// Reset eventBuf if needed.
-	ei.eventBufLock.Lock()
 	if !ei.eventCbEnabled {
 		ei.eventBuf = nil
 	}
-	ei.eventBufLock.Unlock()
 	return res
 }
 
